@@ -264,7 +264,11 @@ Proof.
                          | eapply tok_burn_core_same; eassumption
                          | apply same_refl
                          | eapply same_trans; [eapply tok_transfer_checked_same; eassumption|eapply withdraw_sol_cpi_same; eassumption] ] ].
-  destruct ms; invp. eapply IHd; eassumption.
+  - destruct ms; invp. eapply IHd; eassumption.
+  - apply same_dstep12.
+    match goal with Hb : (if ?b then _ else _) = Ok _ |- _ => destruct b; revert Hb end.
+    + intros H; invp. eapply same_trans; [eapply tok_transfer_checked_same; eassumption|eapply withdraw_sol_cpi_same; eassumption].
+    + destruct (nthk ms 8); intros H; invp. eapply withdraw_sol_cpi_same; eassumption.
 Qed.
 Theorem exec_ixs_step12 t : forall ixs prev W W', exec_ixs t ixs prev W = Ok W' -> dstep12 W W'.
 Proof.
